@@ -110,6 +110,11 @@ if __name__ == '__main__':
     else:
         logging.basicConfig(format="%(name)s %(levelname)s: %(message)s", level=level)
 
+    # started as a script, the directory of this file heads sys.path: supp's own
+    # modules (util, name, scope ...) are no top-level modules of the user's project
+    here = os.path.dirname(os.path.abspath(__file__))
+    sys.path[:] = [p for p in sys.path if os.path.abspath(p or os.getcwd()) != here]
+
     listener = Listener(sys.argv[1])
     conn = listener.accept()
     server = Server(conn)
